@@ -9,3 +9,5 @@ package sftp
 func simYield(site string, key uint64) {}
 
 func (f *File) simLock(method uint64, write bool) {}
+
+func (c *clientConn) simLockMu(key uint64) {}
